@@ -229,6 +229,12 @@ video_filter_configure(struct video_filter_s* self,
 enum DeviceStatusCode
 video_filter_start(struct video_filter_s* self)
 {
+    // Register as a reader of the input queue before the source can write to
+    // it (see video_sink_start).
+    if (!self->reader.id) {
+        channel_read_map(&self->in, &self->reader);
+        channel_read_unmap(&self->in, &self->reader, 0);
+    }
     self->is_stopping = 0;
     self->is_running = 1;
     CHECK(
